@@ -254,6 +254,26 @@ def run(inst, claims_fn, witness_fn=None, engine=None, timeout_ms=10000, split_d
     def witness(eng, v):
         return witness_fn(v) if witness_fn else []
 
+    mismatch = [0]
+
+    def validate(eng, model, v):
+        """concolic validation of the symbolic execution: a model of the path condition, replayed on the unmodified code with
+        plain floats (table map), must give the results of the symbolic path (exact ties / thresholds can legitimately flip
+        under rounding: mismatches are counted, not raised)."""
+        try:
+            table = ModelTable(model)
+            thr = threshold_values(model, cfg)
+            if any(v.get('orders', [])):
+                thr['__orders__'] = [{k: list(p) for k, p in rec.items()} for rec in v['orders']]
+            ctx = concrete_ctx(table, thr)
+            a = [(None if r['states'] is None else list(r['states']), r['idx']) for r in v['results']]
+            b = [(None if r['states'] is None else list(r['states']), r['idx']) for r in ctx['results']]
+            if a != b:
+                mismatch[0] += 1
+        except Exception:
+            mismatch[0] += 1
+        return None
+
     if engine is None:
         engine = 'nra' if cfg.fam == 'dist' else 'lra'   # distance family: products of sqrt variables -> nlsat per query
     mk = runner.lra_engine(timeout_ms) if engine == 'lra' else runner.nra_engine(timeout_ms)
@@ -269,9 +289,12 @@ def run(inst, claims_fn, witness_fn=None, engine=None, timeout_ms=10000, split_d
         shims.uninstall()
         return r
     out = runner.explore(iname, mk, scenario, claims, confirm=confirm, witness=witness, budget_s=budget, root=prefix,
-                         exc_is_violation=exc_is_violation,
+                         exc_is_violation=exc_is_violation, validate=validate, max_validate=3,
                          sample_fmt=lambda v: [(r['op'], repr(r['states']), r['idx']) for r in v['results']])
     shims.uninstall()
+    if mismatch[0]:
+        out['tags']['concolic_replay_differs_(tie_or_threshold_rounding)'] = mismatch[0]
+        out['validated'] = max(0, out.get('validated', 0) - mismatch[0])
     if unrealised:
         # keep one representative per instance; the generic "did not reproduce" entries of the same paths are dropped
         out['candidates'] = [c for c in out['candidates'] if 'did not reproduce' not in c.get('desc', '')] + unrealised[:2]
